@@ -116,7 +116,7 @@ func concPackage(u *vk.Unit, p *reg.Package, meta Meta, pkg string) {
 		if m.Name == "NewError" {
 			continue
 		}
-		bld := &valgen.Builder{Class: valgen.Core, Variants: p.Variants, TimeFormat: meta.TimeFormat, Hook: statusHook(meta, m.Name), MaxDepth: 3}
+		bld := &valgen.Builder{Class: valgen.Core, Variants: p.Variants, Types: p.Types, TimeFormat: meta.TimeFormat, Hook: statusHook(meta, m.Name), MaxDepth: 3}
 		type built struct {
 			args []reflect.Value
 			resp reflect.Value
